@@ -10,6 +10,7 @@ import (
 	"sort"
 	"strconv"
 	"strings"
+	"sync"
 	"testing"
 	"time"
 
@@ -54,6 +55,10 @@ func TestVerif_C27(t *testing.T) {
 		{"127.0.0.1:900", true, true}, {"[::1]:900", true, true}, {"127.9.9.9:900", true, true}, {"[::ffff:127.0.0.1]:900", true, true},
 		{"10.0.0.5:900", false, true}, {"192.168.1.1:1", false, true}, {"[2001:db8::1]:900", false, true}, {"[::ffff:10.0.0.1]:900", false, true},
 		{"[fe80::1%eth0]:900", false, true}, {"weird-non-tcp-address", false, false},
+		// addresses that merely contain a 127 / 0x7f00 somewhere
+		{"[2001:db8::7f00:1]:900", false, true}, {"[64:ff9b::7f00:1]:900", false, true}, {"[fe80::7f00:1%eth0]:900", false, true}, {"[2001:db8::127]:900", false, true},
+		{"1.2.3.127:900", false, true}, {"128.0.0.1:900", false, true}, {"126.255.255.255:900", false, true}, {"[::ffff:128.0.0.1]:900", false, true},
+		{"127.255.255.254:1", true, true}, {"[::ffff:127.1.2.3]:900", true, true},
 	}
 	eps := evid.Pick(80, 3000)
 	for ep := 0; ep < eps && rec.Violations() < 30; ep++ {
@@ -119,9 +124,13 @@ func TestVerif_C27(t *testing.T) {
 			}
 			op := fmt.Sprintf("v%d proc=%d from %s %s prog=%d vers=%d prot=%d port=%d", vers, proc, peer.addr, shape, prog, pv, prot, port)
 			ops = append(ops, op)
-			before := pm.GetMappings()
+			beforeLive := pm.GetMappings()
+			before := append([]PortMapping(nil), beforeLive...) // what GetMappings said, by value
 			rec.Eval(1)
 			raw, err := pm.handleCall(msg, remote)
+			if !vfSameMappings(before, beforeLive) {
+				fail("C27/GetMappings-result-changed-after-it-was-returned", fmt.Sprintf("%s: the slice GetMappings() returned before the call reads %v now, it read %v", op, beforeLive, before))
+			}
 			pcls := "non-loopback"
 			if peer.loopback {
 				pcls = "loopback"
@@ -278,6 +287,72 @@ func TestVerif_C27(t *testing.T) {
 		if ep == 0 {
 			rec.Sample(map[string]any{"ops": ops})
 		}
+	}
+	// ---- concurrent DUMPs against SET/UNSET (race detector on): every DUMP reply is a registry
+	// state that existed: no key listed twice, every listed port one that was registered for it ----
+	for ep := 0; ep < evid.Pick(4, 60); ep++ {
+		pm := NewPortmapper()
+		pm.logger = log.New(io.Discard, "", 0)
+		lo, _ := net.ResolveTCPAddr("tcp", "127.0.0.1:901")
+		stop := make(chan struct{})
+		var wg sync.WaitGroup
+		wg.Add(1)
+		go func() {
+			defer wg.Done()
+			for i := 0; ; i++ {
+				select {
+				case <-stop:
+					return
+				default:
+				}
+				prog := uint32(100003 + i%4)
+				args := (&xdrw.W{}).U32(prog).U32(3).U32(6).U32(uint32(2000 + i%7)).B
+				proc := uint32(1 + (i/4)%2) // SET ... UNSET ...
+				pm.handleCall(append(xdrw.CallHeader(uint32(i), 100000, 2, proc, xdrw.Cred{}), args...), lo)
+			}
+		}()
+		dumps := 0
+		for i := 0; i < 400; i++ {
+			vers := []uint32{2, 3, 4}[i%3]
+			raw, err := pm.handleCall(xdrw.CallHeader(uint32(9000+i), 100000, vers, 4, xdrw.Cred{}), lo)
+			if err != nil {
+				continue
+			}
+			rep, derr := rfc.DecodeReply(raw)
+			if derr != nil || rep.Denied || rep.AcceptStat != 0 {
+				continue
+			}
+			var ents []rfc.PmapEntry
+			if vers == 2 {
+				ents, derr = rfc.DecodePmapDump(rep.Body)
+			} else {
+				ents, derr = rfc.DecodeRpcbDump(rep.Body)
+			}
+			if derr != nil {
+				rec.Violate(fmt.Sprintf("C27/dump-result-undecodable/vers=%d", vers), "concurrent with SET/UNSET: "+derr.Error(), nil)
+				continue
+			}
+			dumps++
+			seen := map[string]bool{}
+			for _, e := range ents {
+				if vers != 2 {
+					e.Prot = map[string]uint32{"tcp": 6, "udp": 17, "tcp6": 6, "udp6": 17}[e.Netid]
+					e.Port, _ = vfUaddrPort(e.Addr)
+				}
+				k := fmt.Sprintf("%d/%d/%d", e.Prog, e.Vers, e.Prot)
+				if seen[k] {
+					rec.Violate("C27/dump-lists-a-key-twice/concurrent-with-SET-UNSET", fmt.Sprintf("v%d DUMP lists %s twice: %+v", vers, k, ents), nil)
+				}
+				seen[k] = true
+				if e.Prog >= 100003 && e.Prog <= 100006 && e.Vers == 3 && e.Prot == 6 && (e.Port < 2000 || e.Port > 2006) {
+					rec.Violate("C27/dump-reports-a-port-never-registered/concurrent-with-SET-UNSET", fmt.Sprintf("v%d DUMP: %+v", vers, e), nil)
+				}
+			}
+		}
+		close(stop)
+		wg.Wait()
+		rec.Eval(dumps)
+		rec.Distinct(fmt.Sprintf("concurrent-dump|dumps>0=%v", dumps > 0))
 	}
 	// ---- real TCP portmapper on a high port, loopback client ----
 	pm := NewPortmapper()
